@@ -36,6 +36,8 @@ pub struct Digest {
     pub opposing: Vec<Spec>,
     pub uncertain: Vec<Spec>,
     pub excluded: Vec<Spec>,
+    /// "content=reason" of every listed exclusion, sorted
+    pub reasons: Vec<String>,
     /// ineligible assertions about the OTHER value of the slot that the answer does not list
     /// (not demanded by the property; reported as an evidence note)
     pub other_value_unlisted: u64,
@@ -315,6 +317,25 @@ pub fn check_projection(
         opposing: content(&o_set),
         uncertain: content(&u_set),
         excluded: content(&x_set),
+        reasons: {
+            let mut r: Vec<String> = raw["explanation"]["excluded"]
+                .as_array()
+                .map(|list| {
+                    list.iter()
+                        .filter_map(|e| {
+                            let ord = by_id.get(e["assertion_id"].as_str()?)?;
+                            Some(format!(
+                                "{}={}",
+                                specs[*ord].short(),
+                                e["reason"].as_str().unwrap_or("?")
+                            ))
+                        })
+                        .collect()
+                })
+                .unwrap_or_default();
+            r.sort();
+            r
+        },
         other_value_unlisted: {
             let rows = model::ledger(case, upto);
             m.other_value_ignored
@@ -340,6 +361,12 @@ pub fn compare_coordinates(now: &Digest, then: &Digest) -> Vec<Finding> {
     compare_digests("read-coordinate-dependence", now, then)
 }
 
+/// The same evaluation INSTANT written two ways in `FOR TIME` (canonical vs
+/// second precision / UTC offsets): the model works on instants.
+pub fn compare_spellings(canonical: &Digest, other: &Digest) -> Vec<Finding> {
+    compare_digests("evaluation-time-spelling-dependence", canonical, other)
+}
+
 fn compare_digests(law: &str, first: &Digest, other: &Digest) -> Vec<Finding> {
     let mut out = Vec::new();
     if first.status != other.status {
@@ -361,10 +388,14 @@ fn compare_digests(law: &str, first: &Digest, other: &Digest) -> Vec<Finding> {
         || first.opposing != other.opposing
         || first.uncertain != other.uncertain
         || first.excluded != other.excluded
+        || first.reasons != other.reasons
     {
         out.push(finding(
             &format!("{law}|ids"),
-            "supporting/opposing/uncertain/excluded sets differ".to_string(),
+            format!(
+                "supporting/opposing/uncertain/excluded sets or exclusion reasons differ (reasons {:?} vs {:?})",
+                first.reasons, other.reasons
+            ),
         ));
     }
     if (first.s_score - other.s_score).abs() > EPS_ORDER
